@@ -925,10 +925,10 @@ class SysGen:
         else:
             name = "G%d" % self.counter
             for _ in range(20):
-                g = CompGen(rng, name=name, allow_zero=rng.random() < 0.3, nstmts=rng.choice([3, 5, 8]), density=0.05)
-                prog = g.build()
+                prog = sat_component(rng, name=name, allow_zero=rng.random() < 0.3, nstmts=rng.choice([3, 5, 8]))
+                dd = den_src(prog, "", 0)
                 ports = prog["decl"][1] + prog["decl"][2]
-                lens = [g.seqlen(p[0]) for p in ports]
+                lens = [len(dd["named"].get(p[0], [])) for p in ports]
                 if ports and all(l > 0 for l in lens): break
             item = {"kind": "comp", "name": name, "params": [], "prog": prog, "nin": len(prog["decl"][1]), "dir": d,
                     "ports_fn": (lambda a, ports=ports, lens=lens: [(p[0], p[1], l) for p, l in zip(ports, lens)])}
@@ -1153,3 +1153,48 @@ def den_env(prog, prefix, d):
         if st[0] == "seq":
             env[st[1]] = d["named"].get(prefix + st[1], [])
     return env
+
+def sat_component(rng, name="prog", allow_zero=True, nstmts=None):
+    """a generated component whose structures are built so that the whole design stays satisfiable"""
+    for _ in range(30):
+        g = CompGen(rng, name=name, allow_zero=allow_zero, nstmts=nstmts)
+        prog = g.build()
+        body = [st for st in prog["body"] if st[0] not in ("struct", "kin")]
+        base = {"decl": [prog["decl"][0], [[p[0], p[1], None] for p in prog["decl"][1]], [[p[0], p[1], None] for p in prog["decl"][2]]], "body": body}
+        den = den_src(base, "", 0)
+        if den is None or not den["strands"]: continue
+        uf = ParityUF()
+        for d, t in den["doms"].items():
+            for i, c in enumerate(t): uf.add((d, i), c)
+        names = list(den["strands"])
+        structs = []
+        for k in range(rng.choice([1, 1, 2, 3])):
+            sel = [rng.choice(names) for _ in range(rng.choice([1, 1, 2, 3]))]
+            flat = [x for s in sel for x in den["strands"][s][1]]
+            sy = ["."] * len(flat); opened = []
+            for j in range(len(flat)):
+                r = rng.random()
+                if opened and r < 0.45:
+                    o = opened[-1]; a, b = flat[o], flat[j]
+                    if uf.try_link(a[:2], b[:2], a[2] ^ b[2] ^ 1):
+                        opened.pop(); sy[o] = "("; sy[j] = ")"
+                elif r < 0.75:
+                    opened.append(j)
+            segs = []; p = 0
+            for s in sel:
+                L = len(den["strands"][s][1]); segs.append("".join(sy[p:p + L])); p += L
+            dp = "+".join(segs)
+            mode = rng.choice(["plain", "ext", "hu"])
+            note = ["hu", tree_to_hu(rng, dp_to_tree(dp))] if mode == "hu" else ["ext", dp_to_ext(rng, dp, plain=(mode == "plain"))]
+            sn = "X%d" % k
+            body.append(["struct", rng.choice([1, 1, 0, 4]), sn, sel, False, note]); structs.append(sn)
+        if rng.random() < 0.3 and structs:
+            body.append(["kin", None, None, [rng.choice(structs)], [rng.choice(structs)]])
+        ports = lambda: [[rng.choice(list(den["named"]) or ["x"]), rng.random() < 0.3, ["Some", rng.choice(structs)] if rng.random() < 0.3 else None] for _ in range(rng.choice([0, 1, 2]))]
+        seqnames = [st[1] for st in body if st[0] == "seq"]
+        def port():
+            return [rng.choice(seqnames), rng.random() < 0.3, ["Some", rng.choice(structs)] if rng.random() < 0.3 else None]
+        prog2 = {"decl": [name, [port() for _ in range(rng.choice([0, 1, 2]))], [port() for _ in range(rng.choice([0, 1, 2]))]], "body": body}
+        if den_src(prog2, "", 0) is not None:
+            return prog2
+    raise RuntimeError("could not generate a satisfiable component")
